@@ -33,8 +33,19 @@ void q_release_all() { for (void* p : g_qlist) free(p); g_qlist.clear(); vs::mem
 
 // ---- supervision ------------------------------------------------------------------------------------------------
 struct Shared { volatile long exec_no; volatile long next_id; volatile long progress; volatile int strategy; volatile unsigned long long seed; volatile int nprefix; volatile int prefix[8192];
-                volatile long execs_done, inconclusive, deadlocks, uads, crashes, max_steps, distinct; volatile int exhausted; };
+                volatile long execs_done, inconclusive, deadlocks, uads, crashes, max_steps, distinct; volatile int exhausted; volatile int decs[2 * vs::DEC_SINK_MAX + 2]; };
 static Shared* g_sh = nullptr;
+// partial history of an execution that is abandoned (step budget exceeded: livelock): the completed operations and the pending invocations are
+// still evidence; the record is flagged "p":1 and ends with an x "hang" event (vlib judges it with every completion of the pending calls)
+static FILE* g_fo = nullptr; static FILE* g_fs = nullptr; static std::string g_sched_head;
+static std::string join_ints(const std::vector<int>& v);
+static void flush_partial(const char*, const std::vector<int>& trace) {
+  if (!g_fo || !g_sh) return;
+  for (auto& u : vs::g_uad) g_hist.push_back(HEv{'x', u.t < 0 ? 0 : u.t, "uad", u.tag, u.kind, 0, 0});
+  g_hist.push_back(HEv{'x', 0, "hang", 42, 0, 0, 0});
+  long id = g_sh->next_id++; g_sh->distinct++;
+  fprintf(g_fo, "{\"e\":\"reset\",\"n\":%zu,\"id\":%ld,\"p\":1}\n%s", g_hist.size(), id, hist_json(g_hist).c_str()); fflush(g_fo);
+  if (g_fs) { fprintf(g_fs, "{\"id\":%ld,%s,\"sched\":\"%s\"}\n", id, g_sched_head.c_str(), join_ints(trace).c_str()); fflush(g_fs); } }
 static void on_crash(int sig) { _exit(100 + sig); }
 
 struct Args { std::string variant, program, strategy = "random", out = "", replay = "", prefix = ""; long n = 1000; int bound = 2; unsigned long long seed = 1; int pct_depth = 3; bool list = false; bool steps = false; bool spurious = false; double time_limit = 1e9; long max_steps = 400000; };
@@ -53,7 +64,10 @@ static int child_explore(const Args& A, const Variant& V, const Program& P, long
   for (long k = start_exec; k < A.n; ++k) {
     spec.seed = A.seed + (unsigned long long)k; spec.pct_len = est_len;
     g_sh->exec_no = k; g_sh->strategy = strat; g_sh->seed = spec.seed; g_sh->nprefix = (int)std::min<size_t>(spec.prefix.size(), 8192); for (int i = 0; i < g_sh->nprefix; ++i) g_sh->prefix[i] = spec.prefix[i];
-    g_hist.clear(); q_release_all();
+    g_hist.clear(); q_release_all(); g_sh->decs[0] = 0; vs::g_dec_sink = g_sh->decs;
+    { char hb[64]; snprintf(hb, sizeof hb, "\"seed\":%llu,\"bound\":%d", spec.seed, A.bound);
+      g_sched_head = "\"variant\":\"" + V.name + "\",\"program\":\"" + P.text + "\",\"strategy\":\"" + A.strategy + "\"," + hb + ",\"prefix\":\"" + join_ints(spec.prefix) + "\"";
+      g_fo = fo; g_fs = fs; vs::g_on_abort = flush_partial; }
     vs::ExecResult r = vs::run([&] { V.body(P); }, spec);
     g_sh->progress++; g_sh->execs_done++; if ((long)r.steps > g_sh->max_steps) g_sh->max_steps = (long)r.steps;
     if (r.trace.size() > 20) est_len = r.trace.size();
@@ -63,7 +77,7 @@ static int child_explore(const Args& A, const Variant& V, const Program& P, long
     std::string h = hist_json(g_hist);
     if (seen.insert(h).second) {
       long id = g_sh->next_id++; g_sh->distinct++;
-      fprintf(fo, "{\"e\":\"reset\",\"n\":%zu,\"id\":%ld}\n%s", g_hist.size(), id, h.c_str()); fflush(fo);
+      fprintf(fo, "{\"e\":\"reset\",\"n\":%zu,\"id\":%ld%s}\n%s", g_hist.size(), id, r.deadlock ? ",\"p\":1" : "", h.c_str()); fflush(fo);
       if (fs) { fprintf(fs, "{\"id\":%ld,\"variant\":\"%s\",\"program\":\"%s\",\"strategy\":\"%s\",\"seed\":%llu,\"bound\":%d,\"prefix\":\"%s\",\"sched\":\"%s\"}\n", id, V.name.c_str(), P.text.c_str(), A.strategy.c_str(), spec.seed, A.bound, join_ints(spec.prefix).c_str(), join_ints(r.trace).c_str()); fflush(fs); }
     }
     if (r.deadlock) { /* threads of a deadlocked execution are parked forever: leave this process */ fflush(fo); if (fs) fflush(fs); _exit(43); }
@@ -117,7 +131,11 @@ int main_impl(int argc, char** argv) {
       if (!A.out.empty()) { FILE* fs = fopen((A.out + ".sched").c_str(), "a"); std::vector<int> pf; for (int i = 0; i < g_sh->nprefix; ++i) pf.push_back((int)g_sh->prefix[i]);
         fprintf(fs, "{\"id\":%ld,\"variant\":\"%s\",\"program\":\"%s\",\"strategy\":\"%s\",\"seed\":%llu,\"bound\":%d,\"prefix\":\"%s\",\"sched\":\"%s\"}\n", id, V->name.c_str(), P.text.c_str(), A.strategy.c_str(), (unsigned long long)g_sh->seed, A.bound, join_ints(pf).c_str(), A.replay.c_str()); fclose(fs); }
     }
-    if (A.strategy == "dfs" || A.strategy == "replay" || A.strategy == "seq") break;   // cannot resume a DFS after losing the process
+    if (A.strategy == "replay" || A.strategy == "seq") break;
+    if (A.strategy == "dfs") {   // continue the DFS behind the lost execution: successor of its mirrored decision list (the subtree below the abort point is skipped)
+      int n = g_sh->decs[0]; if (n < 0) break; int i = n - 1; while (i >= 0 && g_sh->decs[2 + 2 * i] + 1 >= g_sh->decs[1 + 2 * i]) --i;
+      if (i < 0) { g_sh->exhausted = 1; break; }
+      std::string pf; for (int j = 0; j < i; ++j) pf += std::to_string(g_sh->decs[2 + 2 * j]) + ","; pf += std::to_string(g_sh->decs[2 + 2 * i] + 1); A.prefix = pf; }
     if (g_sh->crashes >= 3) break;                                                       // enough evidence
     start = k + 1;
   }
